@@ -94,12 +94,15 @@ def plain (c : Cfg) : V → Ev
   | .bin _ bs =>
     if c.bin then .add (.bin bs) else if c.rich then typed "Binary" (.add (.str (b64 bs))) else .add (.str (b64 bs))
   | .leaf _ k enc disp => if c.rich then typed k.typeName (.add (.str enc)) else .add (.str disp)
+  | .obj _ tn disp as => if c.rich then .hsh (ptypeEv :: .add (.str tn) :: plainAttrs c as) else .add (.str disp)
 def plainList (c : Cfg) : List V → List Ev
   | [] => [] | v :: vs => plain c v :: plainList c vs
 def plainPairs (c : Cfg) : List (V × V) → List Ev
   | [] => [] | (k, v) :: es => plain c k :: plain c v :: plainPairs c es
 def plainSKeys (c : Cfg) : List (V × V) → List Ev
   | [] => [] | (k, v) :: es => .add (.str k.disp) :: plain c v :: plainSKeys c es
+def plainAttrs (c : Cfg) : List (String × V) → List Ev
+  | [] => [] | (k, v) :: as => .add (.str k) :: plain c v :: plainAttrs c as
 end
 
 /-! ### the sharing hypothesis, decidable -/
@@ -125,11 +128,14 @@ def keysOf (c : Cfg) : V → List (Key × Ev)
   | .sens id v => (.ptr id, plain c (.sens id v)) :: keysOf c v
   | .bin id bs => [(.ptr id, plain c (.bin id bs))]
   | .leaf id k enc disp => [(leafKey id k enc, plain c (.leaf id k enc disp))]
+  | .obj id tn disp as => (.ptr id, plain c (.obj id tn disp as)) :: keysOfAttrs c as
   | _ => []
 def keysOfList (c : Cfg) : List V → List (Key × Ev)
   | [] => [] | v :: vs => keysOf c v ++ keysOfList c vs
 def keysOfPairs (c : Cfg) : List (V × V) → List (Key × Ev)
   | [] => [] | (k, v) :: es => keysOf c k ++ keysOf c v ++ keysOfPairs c es
+def keysOfAttrs (c : Cfg) : List (String × V) → List (Key × Ev)
+  | [] => [] | (_, v) :: as => keysOf c v ++ keysOfAttrs c as
 end
 
 /-- the assignment read off a table: strings by content, everything else by its first entry -/
@@ -144,11 +150,14 @@ def cohB (c : Cfg) (tbl : List (Key × Ev)) : V → Bool
   | .sens id v => (Fof tbl (.ptr id)).beq (plain c (.sens id v)) && cohB c tbl v
   | .bin id bs => (Fof tbl (.ptr id)).beq (plain c (.bin id bs))
   | .leaf id k enc disp => (Fof tbl (leafKey id k enc)).beq (plain c (.leaf id k enc disp))
+  | .obj id tn disp as => (Fof tbl (.ptr id)).beq (plain c (.obj id tn disp as)) && cohBAttrs c tbl as
   | _ => true
 def cohBList (c : Cfg) (tbl : List (Key × Ev)) : List V → Bool
   | [] => true | v :: vs => cohB c tbl v && cohBList c tbl vs
 def cohBPairs (c : Cfg) (tbl : List (Key × Ev)) : List (V × V) → Bool
   | [] => true | (k, v) :: es => cohB c tbl k && cohB c tbl v && cohBPairs c tbl es
+def cohBAttrs (c : Cfg) (tbl : List (Key × Ev)) : List (String × V) → Bool
+  | [] => true | (_, v) :: as => cohB c tbl v && cohBAttrs c tbl as
 end
 
 /-- decidable sharing check: every node agrees with the first node of its identity -/
